@@ -92,6 +92,12 @@ func (c CurlyRouter) matchesRouteByPathTokens(routeTokens, requestTokens []strin
 				if matchesRemainder {
 					break
 				}
+			} else if end := strings.Index(routeToken, "}"); end != -1 && end < len(routeToken)-1 {
+				// {var}suffix ; the token must end with the literal suffix and leave a non-empty value
+				suffix := routeToken[end+1:]
+				if len(requestToken) <= len(suffix) || !strings.HasSuffix(requestToken, suffix) {
+					return false, 0, 0
+				}
 			}
 		} else { // no { prefix
 			if requestToken != routeToken {
